@@ -186,3 +186,34 @@ PROPERTIES["C15"] = {
                "first and keep no filter-dependent state is read, not solver-checked; the unified analyzer's own packet_parser copy; worker threads",
     "assumptions": ["E1 tracing stub"],
 }
+
+# ------------------------------------------------------------------------------------------ C18
+_c18 = [
+    H("c18::tcp::c18_tcp_raw_v4", "quick", "two raw IPv4 frames of 60 bytes (IHL symbolic), all bytes symbolic, same decoded source address", "hash_source_ip equal", timeout_s=900),
+    H("c18::tcp::c18_tcp_eth_v4", "quick", "two Ethernet+IPv4 frames of 54 bytes", "hash_source_ip equal", timeout_s=900),
+    H("c18::tcp::c18_tcp_raw_v6", "thorough", "two raw IPv6 frames of 60 bytes", "hash_source_ip equal", timeout_s=2700),
+    H("c18::tcp::c18_tcp_eth_v6", "thorough", "two Ethernet+IPv6 frames of 74 bytes", "hash_source_ip equal", timeout_s=2700),
+]
+for c in ["tls", "http"]:
+    ident = "directed 4-tuple" if c == "tls" else "4-tuple irrespective of direction"
+    _c18 += [
+        H(f"c18::{c}::c18_valid_index_64", "quick", "every frame of 0..=64 bytes x every worker count (usize, incl. 0)", "index < n (0 when n == 0), no panic"),
+        H(f"c18::{c}::c18_raw_v4_n4", "quick", f"two raw IPv4 frames of 60 bytes (IHL symbolic), same {ident}, 4 workers", "same worker, valid index", timeout_s=900),
+        H(f"c18::{c}::c18_raw_v4_n3", "thorough", f"same, 3 workers", "same worker, valid index", timeout_s=2700),
+        H(f"c18::{c}::c18_eth_v4_n4", "quick", f"two Ethernet+IPv4 frames of 54 bytes, same {ident}, 4 workers", "same worker, valid index", timeout_s=900),
+        H(f"c18::{c}::c18_eth_v4_n7", "thorough", f"same, 7 workers", "same worker, valid index", timeout_s=2700),
+        H(f"c18::{c}::c18_raw_v6_n4", "thorough", f"two raw IPv6 frames of 60 bytes, same {ident}, 4 workers", "same worker, valid index", timeout_s=2700, mem_gb=24),
+        H(f"c18::{c}::c18_eth_v6_n16", "thorough", f"two Ethernet+IPv6 frames of 74 bytes, same {ident}, 16 workers", "same worker, valid index", timeout_s=2700, mem_gb=24),
+    ]
+PROPERTIES["C18"] = {
+    "harnesses": _c18,
+    "explanation": "Two-run non-interference by bounded model checking: two frames of a framing skeleton, every other byte symbolic in both, "
+                   "that the analyzer's own decoder (real parse_packet + pnet views) maps to the same connection identity must be given the same "
+                   "worker by the real hash functions (SipHash encoded by CBMC); plus index validity over all frames and worker counts.",
+    "functions": ["tcp::packet_hash::hash_source_ip", "http::packet_hash::hash_flow (hash_ipv4_flow, hash_ipv6_flow, fallback_hash)",
+                  "tls::packet_hash::hash_flow", "{tcp,http,tls}::packet_parser::parse_packet", "std DefaultHasher (SipHash-1-3)"],
+    "bounds": "frames of 54/60/74 bytes per skeleton (raw/Ethernet x IPv4/IPv6), worker counts 3, 4, 7, 16; valid index: frames <= 64 bytes, every usize count",
+    "outside": "the accounting clause (queued/dropped counters, exactly-once analysis under concurrent dispatchers): needs WorkerPool threads and crossbeam channels, "
+               "which Kani does not model; NULL/loopback framing; longer frames; truncated frames in the two-run harnesses",
+    "assumptions": ["E1 tracing stub", "identity defined through the analyzer's decoder; a frame that is both a raw IP packet and an Ethernet frame is excluded from the raw skeletons"],
+}
